@@ -1,6 +1,7 @@
 package main
 
 import (
+	"sync/atomic"
 	"crypto/sha256"
 	"fmt"
 	"math/big"
@@ -66,7 +67,7 @@ type Term struct {
 	// quantifier support
 	Bound []*Term // bound variables (syms) for forall/exists
 	Pats  []*Term
-	str   string
+	str   atomic.Pointer[string] // cached text; terms are shared between the solver workers
 }
 
 var (
@@ -110,8 +111,8 @@ func (t *Term) IsFalse() bool { return t.Op == "false" }
 func (t *Term) IsBV() bool    { return strings.HasPrefix(t.Sort, "(_ BitVec") }
 
 func (t *Term) String() string {
-	if t.str != "" {
-		return t.str
+	if p := t.str.Load(); p != nil {
+		return *p
 	}
 	var s string
 	switch t.Op {
@@ -156,7 +157,7 @@ func (t *Term) String() string {
 		b.WriteString(")")
 		s = b.String()
 	}
-	t.str = s
+	t.str.Store(&s)
 	return s
 }
 
